@@ -63,6 +63,8 @@ type vfConsCase struct {
 	Interceptors []string  `json:"interceptors,omitempty"`
 	ReadTimeoutMs int      `json:"readTimeoutMs"`
 	Delays       map[string][]int `json:"delays,omitempty"`
+	C12          *vfC12Ctl `json:"c12,omitempty"`
+	PauseReadersAtClose bool `json:"pauseReadersAtClose,omitempty"` // Close() must not depend on somebody still reading Messages()
 }
 
 type vfcDelivered struct {
@@ -100,6 +102,10 @@ type vfConsRun struct {
 	intercepts []vfcIntercept
 	nDelivered int64
 	slowFired  bool
+	stop       *vfStopper
+	eventsEnd  int64
+	closedEarly bool
+	secondClose string
 }
 
 type vfcIntercept struct {
@@ -358,6 +364,8 @@ func vfExecCons(c *vfConsCase) *vfConsRun {
 	sim.setFaults(faults)
 	restoreHooks := vfInstallHooks(c.Delays, sim)
 	defer restoreHooks()
+	run.stop = newVfStopper(c.C12, sim)
+	defer run.stop.finish()
 	oldPH := PanicHandler
 	PanicHandler = func(v interface{}) {
 		run.mu.Lock()
@@ -383,6 +391,7 @@ func vfExecCons(c *vfConsCase) *vfConsRun {
 	run.startErr = make([]string, n)
 	pcs := make([]PartitionConsumer, n)
 	var wg sync.WaitGroup
+	pauseCh, resumeCh := make(chan struct{}), make(chan struct{})
 	maxProc := time.Duration(c.MaxProcMs) * time.Millisecond
 	for pi := range c.Parts {
 		pc, err := cons.ConsumePartition("t", int32(pi), c.Parts[pi].Start)
@@ -406,7 +415,14 @@ func vfExecCons(c *vfConsCase) *vfConsRun {
 					run.slowFired = true
 					run.mu.Unlock()
 				}
-				m, ok := <-pc.Messages()
+				var m *ConsumerMessage
+				var ok bool
+				select {
+				case m, ok = <-pc.Messages():
+				case <-pauseCh:
+					<-resumeCh
+					m, ok = <-pc.Messages()
+				}
 				if !ok {
 					run.mu.Lock()
 					run.closedCh[pi] = true
@@ -484,7 +500,7 @@ func vfExecCons(c *vfConsCase) *vfConsRun {
 	lastProg := run.progressKey()
 	lastRounds := atomic.LoadInt64(&sim.fetchRounds)
 	lastChange := time.Now()
-	for !reached() {
+	for !reached() && !run.stop.stopped() {
 		k := run.progressKey()
 		r := atomic.LoadInt64(&sim.fetchRounds)
 		if k != lastProg {
@@ -505,7 +521,9 @@ func vfExecCons(c *vfConsCase) *vfConsRun {
 		}
 		time.Sleep(200 * time.Microsecond)
 	}
-	if run.stuck == "" {
+	run.eventsEnd = vfEventCount(sim)
+	run.closedEarly = run.stop.stopped()
+	if run.stuck == "" && !run.closedEarly {
 		// a few more rounds so that duplicates or strays would show
 		r0 := atomic.LoadInt64(&sim.fetchRounds)
 		t0 := time.Now()
@@ -516,23 +534,40 @@ func vfExecCons(c *vfConsCase) *vfConsRun {
 	// close in the documented order: partition consumers, then the consumer
 	closed := int32(0)
 	go func() {
+		if c.PauseReadersAtClose {
+			close(pauseCh) // nobody takes messages while Close runs
+		}
 		for pi := range pcs {
 			if pcs[pi] != nil {
 				_ = pcs[pi].Close()
 			}
 		}
+		close(resumeCh)
+		if !c.PauseReadersAtClose {
+			close(pauseCh)
+		}
 		wg.Wait()
 		_ = cons.Close()
+		if c.C12 != nil && c.C12.DoubleClose {
+			// closing a partition consumer twice is documented as harmless
+			for pi := range pcs {
+				if pcs[pi] != nil {
+					func() {
+						defer func() {
+							if v := recover(); v != nil {
+								run.secondClose = fmt.Sprintf("second Close of partition consumer %d panicked: %v", pi, v)
+							}
+						}()
+						_ = pcs[pi].Close()
+					}()
+				}
+			}
+		}
 		atomic.StoreInt32(&closed, 1)
 	}()
-	t0 := time.Now()
-	for atomic.LoadInt32(&closed) == 0 {
-		if time.Since(t0) > vfTq()+2*time.Second {
-			run.hang = "closing the partition consumers / consumer did not complete"
-			run.stacks = vfcore.Stacks()
-			break
-		}
-		time.Sleep(500 * time.Microsecond)
+	if !vfWaitQuiescent(sim, func() bool { return atomic.LoadInt32(&closed) == 1 }) {
+		run.hang = "closing the partition consumers / consumer did not complete"
+		run.stacks = vfcore.Stacks()
 	}
 	return run
 }
